@@ -68,6 +68,20 @@ def crosses(cfg: Dict[str, Any], addr: int, w: int) -> str:
     return ""
 
 
+def declared_readonly(cfg: Dict[str, Any], addr: int) -> int:
+    """1 if the configuration itself says this (canonical) address is ROM / read-only"""
+    c = addr & 0xFFFFFF
+    if c >= 0x100000:
+        return 0
+    if cfg.get("rom") and 0xC0000 <= c <= 0xFFFFF:
+        return 1
+    if "rom_overlay" in cfg and cfg["rom_overlay"][0] <= c < cfg["rom_overlay"][0] + len(cfg["rom_overlay"][1]):
+        return 1
+    if "readonly" in cfg and cfg["readonly"][0] <= c <= cfg["readonly"][1]:
+        return 1
+    return 0
+
+
 def cells_of() -> List[int]:
     s = set()
     for a in PALETTE:
@@ -169,6 +183,7 @@ def trace_for(bus, cfgname: str, cells: List[int], tid: int, rnd: random.Random,
     nxt = [idx.get(a + 1, 0) for a in cells]
     # class representative = least connected cell; initial byte per representative
     ev = [{"tid": tid, "ev": "Init", "impl": bus.impl, "cfg": cfgname, "n": len(cells), "W": W, "kind": [kind(a) for a in cells], "nxt": nxt,
+           "ro": [declared_readonly(CONFIGS[cfgname], a) if (a & 0xFFFFFF) == a or True else 0 for a in cells],
            "init": init, "c": 0, "w": 0, "v": 0, "ret": 0}]
     ops = []
     for _ in range(length):
